@@ -1,12 +1,19 @@
 P = {
-    "gens": ["C03flips", "C02rules"],
+    "gens": ["C03flips", "C03state", "C02rules"],
     "theorems": ["C03_check_values", "C03_accept_implies_crc_canonical", "C03_accept_implies_crc_primary",
                  "C03_encode_writes_crc", "C03_burst_rejected", "C03_value_corruption_rejected"],
     "rule": "C03flips: bundles with a CRC (16 or 32, per block) on every block; every single-bit flip of the whole encoding "
             "(exhaustive per bundle) through the real parser and the model; burst mutations (1-4 consecutive bytes xored; bit "
             "windows of 2..32 bits in LSB-first order) judged by an independent CBOR item delimiter + span comparison in the "
             "driver (claim only when the block boundaries are intact and the burst lies inside one block); C02rules adds wrong/"
-            "short/long CRC values, unknown types, missing fields, non-minimal heads",
+            "short/long CRC values, unknown types, missing fields, non-minimal heads. "
+            "C03state (serialiser / parser not in their initial state, not alone): ser = serialisation (WriteBundle, MarshalCbor, "
+            "block by block) into writers failing at every (quick: every 2nd) offset, 1-3 failures in a row, each run followed by a "
+            "serialisation into a healthy writer whose every block must carry the CRC the model computes over the independently "
+            "delimited block bytes, be accepted by parser and model and equal the output produced before any failure; conc = 8 (12) "
+            "goroutines x 1500 (6000) iterations x 3 (12) rounds serialising their own bundle (payloads up to 16 KiB) and parsing intact "
+            "and damaged encodings of common bundles: every output equals the one produced alone, intact encodings are never rejected, "
+            "damaged ones (rejected alone and by the model) never accepted",
     "assumptions": ["see C01"],
     "trusted_base": ["howeyc/crc16 (CCITT table, Checksum complementing in/out) and hash/crc32 Castagnoli are compared with the "
                      "bit-serial definition on every parsed block, not translated"],
